@@ -104,6 +104,11 @@ pub trait Prop {
         let _ = tier;
         vec![]
     }
+    /// whether the enumerated cases also run in the AddressSanitizer build (they are the big
+    /// ones; the ASan build is a smoke tier over the generated cases unless a property opts in)
+    fn fixed_in_asan(&self) -> bool {
+        false
+    }
     fn pre_steps(&self) -> Vec<&'static str> {
         vec![]
     }
@@ -251,7 +256,7 @@ pub fn run_prop<P: Prop>(p: &P, o: &RunOpts) -> Value {
         }
     }
     if fixed_failure.is_none() {
-    if o.shard == 0 && o.dump_index.is_none() {
+    if o.shard == 0 && o.dump_index.is_none() && (o.build != "asan" || p.fixed_in_asan()) {
         for case in p.fixed_cases(o.tier) {
             let mut ctx = Ctx { build: o.build.clone(), thorough: o.tier == Tier::Thorough, ..Ctx::default() };
             let r = catch(|| p.run(&case, &mut ctx));
